@@ -230,6 +230,39 @@ func isValueTerm(t string) bool {
 	return false
 }
 
+// entryBound: a reference read from a field that still holds its entry value,
+// in an object that existed at entry, refers to an object that existed at
+// entry (the entry heap is closed under reachability).
+func (s *State) entryBound(p *PtrVal, val Term, t types.Type) {
+	var ref Term
+	switch t.Underlying().(type) {
+	case *types.Pointer, *types.Map, *types.Signature, *types.Chan:
+		ref = val
+	case *types.Slice:
+		ref = sArr(val)
+	default:
+		return
+	}
+	if p.kind != pkStruct || len(p.path) == 0 || s.alloc.S == s.oldAlloc.S {
+		return
+	}
+	if s.freshRefs[p.base.S] {
+		return
+	}
+	leaf := typeAt(p.rootT, p.path)
+	if s.w.isFlatStruct(leaf) {
+		return
+	}
+	arr := s.w.fieldArray(structKeyOf(p.rootT), pathNames(p.rootT, p.path), s.w.sortOf(leaf))
+	cur := s.H(arr)
+	old := s.oldHeap[arr]
+	same := tTrue
+	if cur.S != old.S {
+		same = mkEq(mkSelect(cur, p.base), mkSelect(old, p.base))
+	}
+	s.assume(mkImp(mkAnd(le(p.base, s.oldAlloc), same), le(ref, s.oldAlloc)))
+}
+
 // ---- pointers ----
 
 func (s *State) toPtr(v Val, pt types.Type) *PtrVal {
@@ -945,6 +978,7 @@ func (x *Exec) unop(s *State, v *ssa.UnOp) {
 		if wt := s.wellTyped(val, v.Type()); wt.S != "true" {
 			s.assume(wt)
 		}
+		s.entryBound(p, val, v.Type())
 		s.set(v, val)
 	case token.NOT:
 		s.set(v, mkNot(s.term(v.X)))
